@@ -114,6 +114,12 @@ Section Loop.
     - apply Forall_forall. intros x Hx. apply in_seq in Hx. lia.
     - intros k Hk. apply in_seq. lia. Qed.
 
+  (* repaired tree: mc_stddev() has a value with exactly one entry per payoff component for EVERY number of paths (0 and 1 included) *)
+  Lemma stddev2_one_per_component d rows : exists e, mc_stddev2_reported d rows = Some e /\ length e = d.
+  Proof. unfold mc_stddev2_reported. destruct rows as [|r0 [|r1 rows']];
+    [exists (repeat 0 d); split; [reflexivity|apply repeat_length]..|].
+    exists (mc_var_repaired d (r0 :: r1 :: rows')). split; [reflexivity|apply mc_var_length]. Qed.
+
   (* MULTI-PROCESS = SINGLE-PROCESS: if the pool hands every draw to exactly one iteration index (sigma permutes 0..n-1), the rows
      are a permutation of the single-process rows (each path once), and price, mc_stddev^2 and get_variance are the same *)
   Theorem multiprocess_same_statistics spot_on its sigma g1 g2 g1' g2' n d j :
@@ -124,9 +130,8 @@ Section Loop.
     let rows1 := st_pay (mc_engine payoff path df notional spot_on (seq 0 n) (fun i => i) g1' g2') in
     Permutation rows rows1
     /\ nth j (price_reported d rows) 0 == nth j (price_reported d rows1) 0
-    /\ (forall e e1, mc_stddev2_reported d rows = Some e -> mc_stddev2_reported d rows1 = Some e1 ->
-          (2 <= n)%nat -> nth j e 0 == nth j e1 0)
-    /\ (mc_stddev2_reported d rows = None <-> mc_stddev2_reported d rows1 = None).
+    /\ (forall e e1, mc_stddev2_reported d rows = Some e -> mc_stddev2_reported d rows1 = Some e1 -> nth j e 0 == nth j e1 0)
+    /\ (exists e e1, mc_stddev2_reported d rows = Some e /\ mc_stddev2_reported d rows1 = Some e1 /\ length e = d /\ length e1 = d).
   Proof. intros H1 H2 H1' H2' Hf Hc Hs Hj rows rows1.
     assert (E : rows = map srow (map sigma (seq 0 n))).
     { unfold rows. rewrite (proj1 (merge_any_order spot_on its sigma g1 g2 n H1 H2 Hf Hc)). now rewrite map_map. }
@@ -138,11 +143,11 @@ Section Loop.
     destruct (stats_perm d rows rows1 j P Hj) as [S1 [S2 S3]].
     split; [exact P|]. split; [|split].
     - unfold price_reported. destruct rows as [|r0 rows']; destruct rows1 as [|r1 rows1']; simpl in PL; try discriminate; [reflexivity|exact S1].
-    - intros e e1 He He1 Hn. unfold mc_stddev2_reported in *.
-      destruct rows as [|r0 [|r0' rows']]; destruct rows1 as [|r1 [|r1' rows1']]; simpl in PL, L1; try discriminate; try lia.
-      inversion He; inversion He1; subst. exact S2.
-    - unfold mc_stddev2_reported.
-      destruct rows as [|r0 [|r0' rows']]; destruct rows1 as [|r1 [|r1' rows1']]; simpl in PL; try discriminate; split; intros; try discriminate; reflexivity. Qed.
+    - intros e e1 He He1. unfold mc_stddev2_reported in *.
+      destruct rows as [|r0 [|r0' rows']]; destruct rows1 as [|r1 [|r1' rows1']]; simpl in PL; try discriminate;
+        inversion He; inversion He1; subst; [reflexivity|reflexivity|exact S2].
+    - destruct (stddev2_one_per_component d rows) as [e [He Le]]. destruct (stddev2_one_per_component d rows1) as [e1 [He1 Le1]].
+      exists e, e1. repeat split; assumption. Qed.
 
   (* ---- n = 0 and n = 1, as reported *)
   Theorem engine_small_n spot_on g1 g2 d j :
@@ -150,11 +155,11 @@ Section Loop.
     (length g1 = 0%nat -> length g2 = 0%nat ->
        let rows := st_pay (mc_engine payoff path df notional spot_on (seq 0 0) (fun i => i) g1 g2) in
        rows = [] /\ nth j (price_reported d rows) 0 == 0 /\ length (price_reported d rows) = d
-       /\ mc_stddev2_reported d rows = None /\ get_variance_reported d rows = None)
+       /\ mc_stddev2_reported d rows = Some (repeat 0 d) /\ get_variance_reported d rows = None)
     /\ (length g1 = 1%nat -> length g2 = 1%nat ->
        let rows := st_pay (mc_engine payoff path df notional spot_on (seq 0 1) (fun i => i) g1 g2) in
        rows = [srow 0%nat] /\ nth j (price_reported d rows) 0 == df * notional * nth j (payoff (path 0%nat)) 0
-       /\ mc_stddev2_reported d rows = Some [0] /\ get_variance_reported d rows = Some [0]).
+       /\ mc_stddev2_reported d rows = Some (repeat 0 d) /\ get_variance_reported d rows = Some (repeat 0 d)).
   Proof. intros Hd Hj. split.
     - intros H1 H2 rows. assert (E : rows = []).
       { unfold rows. rewrite (single_process_instance spot_on g1 g2 0 H1 H2). now rewrite (engine_rows _ _ _ _ 0 g1 H1). }
@@ -185,3 +190,12 @@ Proof. intros Hj Hn. destruct rows as [|r0 [|r1 rows]]; simpl in Hn; try lia.
   split.
   - rewrite (var_unbiased_textbook _ Hc). rewrite Eq. reflexivity.
   - unfold mc_var_repaired. rewrite nth_columns_map by exact Hj. reflexivity. Qed.
+
+(* F-C07-6 (audit5a D4, FIXED in /repo 380d7c7): BEFORE the repair the reported error was not one number per payoff component for
+   fewer than two paths.  Witness on the pre-repair definition mc_stddev2_reported_orig (kept in Model/McStdFull.v for this only):
+   one path, two components: price() has two entries, mc_stddev() one; no path: price() has d entries, mc_stddev() no value (raised). *)
+Lemma error_per_component_before_repair :
+  (length (price_reported 2 [[2; 1]]) = 2%nat /\ mc_stddev2_reported_orig 2 [[2; 1]] = Some [0]
+     /\ mc_stddev2_reported 2 [[2; 1]] = Some [0; 0])
+  /\ (mc_stddev2_reported_orig 3 [] = None /\ length (price_reported 3 []) = 3%nat /\ mc_stddev2_reported 3 [] = Some [0; 0; 0]).
+Proof. repeat split; vm_compute; reflexivity. Qed.
